@@ -64,6 +64,9 @@ class C20(Prop):
         # every sequence of shorter length is a prefix of one of these
         if tier == 'quick':
             seqs = seqs[::3]
+        else:
+            from vkit.framework import pick
+            seqs = [s_ for s_ in seqs if pick(s_, 8, seed)]
         for s in seqs:
             out.append({'harness': 'trace', 'events': [list(alphabet[i]) for i in s], 'sync': False})
         for s in seqs[::97][:6]:
